@@ -432,6 +432,65 @@ struct Codec<SelfPtr<N>>
     static void assign(T& dst, std::uint64_t c) noexcept { dst = make(c); }
 };
 
+// Trivially MOVE constructible and trivially destructible, but with a user-provided copy constructor (a type whose
+// copies are counted / deep, whose moves are shallow). A list of such types may be relocated byte-wise, but a COPY of
+// the vector has to run the copy constructor of every object.
+inline std::uint64_t g_copycounted_copies = 0;
+template <std::size_t N>
+struct __attribute__((packed)) CopyCounted
+{
+    static_assert(N >= 5);
+    std::uint32_t id;
+    unsigned char pad[N - 4];
+    explicit CopyCounted(std::uint32_t v) noexcept : id(v) { std::memset(pad, 0x3C, sizeof(pad)); }
+    CopyCounted(const CopyCounted& o) noexcept : id(o.id)
+    {
+        std::memset(pad, 0x3C, sizeof(pad));
+        ++g_copycounted_copies;
+    }
+    CopyCounted(CopyCounted&&) = default;
+    CopyCounted& operator=(const CopyCounted& o) noexcept
+    {
+        id = o.id;
+        return *this;
+    }
+    CopyCounted& operator=(CopyCounted&&) = default;
+    ~CopyCounted() = default;
+    friend bool operator==(const CopyCounted& a, const CopyCounted& b) noexcept { return a.id == b.id; }
+    friend bool operator!=(const CopyCounted& a, const CopyCounted& b) noexcept { return a.id != b.id; }
+    friend bool operator<(const CopyCounted& a, const CopyCounted& b) noexcept { return a.id < b.id; }
+};
+static_assert(std::is_trivially_move_constructible_v<CopyCounted<12>> && std::is_trivially_destructible_v<CopyCounted<12>> &&
+              !std::is_trivially_copy_constructible_v<CopyCounted<12>> && !std::is_trivially_copyable_v<CopyCounted<12>>);
+template <class T>
+struct IsCopyCounted : std::false_type
+{
+};
+template <std::size_t N>
+struct IsCopyCounted<CopyCounted<N>> : std::true_type
+{
+};
+
+template <std::size_t N>
+struct Codec<CopyCounted<N>>
+{
+    using T = CopyCounted<N>;
+    static constexpr bool TRACKED = false;
+    static constexpr bool MOVE_ONLY = false;
+    static constexpr bool IDENTITY_EQ = false;
+    static constexpr bool ALLOCATES = false;
+    static constexpr MovedState MOVED = MS_SAME;
+    static constexpr std::uint64_t canon(std::uint64_t v) noexcept { return v & 0xFFFFFFFFu; }
+    static T make(std::uint64_t c) noexcept { return T(static_cast<std::uint32_t>(c)); }
+    static std::uint64_t read(const T& x) noexcept
+    {
+        std::uint32_t id;
+        std::memcpy(&id, &x, sizeof(id));
+        return id;
+    }
+    static void assign(T& dst, std::uint64_t c) noexcept { dst = make(c); }
+};
+
 // std::pair<u32,u32>: trivially copy/move *constructible* and trivially destructible but NOT trivially copyable
 // (user-provided assignment) -- the type class a wrong trait choice in the relocation paths mishandles
 using Pair32 = std::pair<std::uint32_t, std::uint32_t>;
